@@ -130,18 +130,18 @@ func main() {
 
 	// a rule loop without a fixed point never returns. A call pending for 60 s is only a suspicion (the
 	// machine may be overloaded): the history is run again on fresh machines, and only if that does not
-	// finish within 300 s either it is reported
+	// finish within 120 s either it is reported
 	startWatchdog(60*time.Second, func(cut *Scenario, m int, in In) {
 		mode := "sim"
 		if !cut.Disciplined {
 			mode = "fuzz"
 		}
-		if lib.WithDeadline(300*time.Second, func() { Replay(cut) }) {
+		if lib.WithDeadline(120*time.Second, func() { Replay(cut) }) {
 			res.Note("a call into the state machine was pending for more than 60 s (machine %d, input %q); the same history re-run on fresh machines returned: slow machine, not a hang", m, in.Line(m))
 			return
 		}
 		res.Violate(lib.Violation{Sig: "state-machine-does-not-terminate",
-			What:   fmt.Sprintf("machine %d did not return from input %q within 60 s, and the same history run again on fresh machines did not finish within 300 s (rule loop without fixed point?)", m, in.Line(m)),
+			What:   fmt.Sprintf("machine %d did not return from input %q within 60 s, and the same history run again on fresh machines did not finish within 120 s (rule loop without fixed point?)", m, in.Line(m)),
 			Replay: replayBody{Mode: mode, Scenario: cut}})
 		lib.Finish(f, res)
 	})
